@@ -22,6 +22,7 @@ type WOp struct {
 	Select    []string       `json:"select,omitempty"`
 	Target    uint           `json:"target,omitempty"`
 	Unscoped  bool           `json:"unscoped,omitempty"`
+	Share     bool           `json:"share,omitempty"` // records with the same non-zero key are one in-memory record shared by several parents
 	Str       string         `json:"str,omitempty"`
 	Int       int            `json:"int,omitempty"`
 }
@@ -55,8 +56,12 @@ func (op *WOp) Exec(db *gorm.DB) (res Result) {
 	db = op.session(db)
 	build := func() []*fam.User {
 		out := make([]*fam.User, len(op.Users))
+		var sh *fam.Shared
+		if op.Share {
+			sh = fam.NewShared()
+		}
 		for i := range op.Users {
-			out[i] = op.Users[i].Build()
+			out[i] = op.Users[i].BuildShared(sh)
 		}
 		return out
 	}
@@ -187,6 +192,20 @@ func GenWOp(r *core.Rand, kinds []string) WOp {
 		for i := 0; i < n; i++ {
 			op.Users = append(op.Users, g.User(r.Intn(2)))
 		}
+		if n >= 2 && r.Chance(35) {
+			// several parents reference one shared company / friend record
+			op.Share = true
+			co := &fam.CompanySpec{ID: 7000 + uint(r.Intn(3)), Name: "shared-co"}
+			fr := fam.UserSpec{ID: 8000 + uint(r.Intn(3)), Name: "shared-friend"}
+			for i := range op.Users {
+				if r.Chance(70) {
+					op.Users[i].Company = co
+				}
+				if r.Chance(70) {
+					op.Users[i].Friends = append(op.Users[i].Friends, fr)
+				}
+			}
+		}
 	case "create_batches":
 		n := r.Range(1, 5)
 		for i := 0; i < n; i++ {
@@ -241,6 +260,11 @@ func ShrinkWOp(op WOp) []WOp {
 	if op.Unscoped {
 		v := op
 		v.Unscoped = false
+		out = append(out, v)
+	}
+	if op.Share {
+		v := op
+		v.Share = false
 		out = append(out, v)
 	}
 	return out
